@@ -1,14 +1,183 @@
 (** C18 — light-node licence funds: escrowed 1:1, released once, vesting, to the licensee.
-    Only statements closed by [exact]; the proofs are in Paloma/LightNodeProofs.v. *)
+    Only statements closed by [exact]; the proofs are in Paloma/LightNodeProofs.v.
+
+    Reading aid.  [step s o] is one operation on the model state of Paloma/LightNode.v and returns
+    the new state and the outcome; [run s0 ops] folds [step] over a history, [trace] lists the
+    outcomes.  Operations: [AddLicence creator client denom amount months] (MsgAddLightNodeClientLicense),
+    [Register who] (MsgRegisterLightNodeClient signed by [who]), [Auth], [Sale chain contract client
+    amount] (an observed MsgLightNodeSaleClaim handled inside processAttestation's cache context),
+    [Send] (any bank transfer; to [escrow] it is a gift), [Grant] (any fee grant), the governance
+    setters and [Tick].  An address STRING is [(id, upper)], the address BYTES are [id]: the licence
+    and client stores are keyed by the string, accounts and balances by the bytes.  [escrow] is the
+    x/paloma module account.  [inv_struct]: the module account exists, every stored licence is for a
+    plain base account, has a positive amount, and no two licences are for the same address.
+    [inv]: [inv_struct] and the escrow equation; both hold in [init t0 b] (no licences, any
+    balances) — Example [ex_inv] — and are preserved by every operation.  [op_wf]: the module account
+    is never a message creator / bank sender / configured funder (it has no key). *)
 From Coq Require Import List ZArith Bool String.
 From Paloma Require Import Base.Dec Paloma.LightNode Paloma.LightNodeProofs.
 From Paloma Require Gen.C18.
 Import ListNotations.
 Open Scope Z_scope.
 
-(** Any operation that is refused — for whatever reason, at whatever point of its execution,
-    including the sale path after the client's account has been created — changes nothing. *)
+(** Clause 1.  After any history the module account holds, per denom, exactly the sum of the
+    not-yet-activated licences plus what was given to it from outside; so it always covers the
+    licences, and equals them when there were no gifts. *)
+Theorem escrow_covers_licences : forall (s0 : state) (ops : list op),
+  inv s0 -> Forall op_wf ops ->
+  let s := run s0 ops in
+  forall d, bal s escrow d = lic_sum d (lics s) + gifts s d /\
+            lic_sum d (lics s) <= bal s escrow d /\
+            gifts s0 d <= gifts s d /\
+            (gifts s d = 0 -> bal s escrow d = lic_sum d (lics s)).
+Proof. exact escrow_covers_licences_thm. Qed.
+Print Assumptions escrow_covers_licences.
+
+(** Clause 2.  A licence (by message or by sale) is created only for an address that has no
+    account and no licence under either spelling; the step gives it a base account and exactly
+    one licence with a positive amount, and touches no other account. *)
+Theorem licence_creation_guard : forall (s s' : state) (o : op) (client : key),
+  inv_struct s -> creates o client -> step s o = (s', Ok) ->
+  acct s (fst client) = None /\
+  (forall up, lic_get (lics s) (fst client, up) = None) /\
+  (exists l, lics s' = (client, l) :: lics s /\ 0 < l_amount l) /\
+  acct s' (fst client) = Some Base /\
+  (forall a, a <> fst client -> acct s' a = acct s a).
+Proof. exact licence_creation_guard_thm. Qed.
+Print Assumptions licence_creation_guard.
+
+(** ... and in every reachable state there is at most one licence per address, each on a plain
+    base account (never on a vesting or module account). *)
+Theorem licences_unique_and_on_base_accounts : forall (s0 : state) (ops : list op),
+  inv_struct s0 ->
+  let s := run s0 ops in
+  NoDup (lic_ids (lics s)) /\
+  forall k l, In (k, l) (lics s) -> acct s (fst k) = Some Base /\ 0 < l_amount l.
+Proof. exact licences_unique_on_base_accounts. Qed.
+Print Assumptions licences_unique_and_on_base_accounts.
+
+(** ... and nothing but the two creation operations ever adds a licence. *)
+Theorem only_creation_adds_a_licence : forall (s : state) (o : op),
+  acct s escrow = Some Module -> (forall client, ~ creates o client) ->
+  incl (lics (fst (step s o))) (lics s).
+Proof. exact only_creation_adds_licences. Qed.
+Print Assumptions only_creation_adds_a_licence.
+
+(** Clause 3.  Along any history an address is activated at most once ... *)
+Theorem activation_once_by_licensee : forall (ops : list op) (s0 : state) (a : addr),
+  inv_struct s0 -> (List.length (filter (activation_of a) (trace s0 ops)) <= 1)%nat.
+Proof. exact activation_at_most_once_thm. Qed.
+Print Assumptions activation_once_by_licensee.
+
+(** ... and a licence stays exactly as it is under every operation except the registration
+    message created by its own address string: nobody else can activate, spend or alter it. *)
+Theorem licence_untouched_by_others : forall (s : state) (o : op) (k : key) (l : licence),
+  acct s escrow = Some Module ->
+  lic_get (lics s) k = Some l -> o <> Register k -> lic_get (lics (fst (step s o))) k = Some l.
+Proof. exact licence_persists. Qed.
+Print Assumptions licence_untouched_by_others.
+
+(** Clause 4.  A successful activation by [who] uses the licence stored for [who]: exactly its
+    amount moves from the module account to that address, no other balance and no other account
+    changes, the address becomes a continuous vesting account whose original vesting is the licensed
+    amount, starting at the block time and ending [months] calendar months later, and the licence
+    is gone. *)
+Theorem activation_moves_exact_amount : forall (s s' : state) (who : key),
+  acct s escrow = Some Module -> step s (Register who) = (s', Ok) ->
+  exists l, lic_get (lics s) who = Some l /\
+    fst who <> escrow /\ acct s (fst who) = Some Base /\
+    acct s' (fst who) = Some (Vesting (now s) (add_months (now s) (l_months l)) (l_amount l) (l_denom l)) /\
+    bal s' (fst who) (l_denom l) = bal s (fst who) (l_denom l) + l_amount l /\
+    bal s' escrow (l_denom l) = bal s escrow (l_denom l) - l_amount l /\
+    (forall a d, (a <> fst who /\ a <> escrow) \/ d <> l_denom l -> bal s' a d = bal s a d) /\
+    (forall a, a <> fst who -> acct s' a = acct s a) /\
+    lic_get (lics s') who = None /\
+    (forall k, k <> who -> lic_get (lics s') k = lic_get (lics s) k) /\
+    0 < l_amount l.
+Proof. exact activation_moves_exact_amount_thm. Qed.
+Print Assumptions activation_moves_exact_amount.
+
+(** Clause 4b.  What the bank keeps locked on such an account at block time t is
+    original − vested(t), where [vested] is the SDK's continuous-vesting formula with its decimal
+    rounding: nothing up to the start, everything from the end on, in between within [0, original],
+    never decreasing ... *)
+Theorem vesting_schedule : forall (st en orig : Z), 0 <= orig ->
+  (forall t, t <= st -> vested st en orig t = 0) /\
+  (forall t, st < t -> en <= t -> vested st en orig t = orig) /\
+  (forall t, 0 <= vested st en orig t <= orig) /\
+  (forall t t', t <= t' -> vested st en orig t <= vested st en orig t').
+Proof. exact vesting_schedule_thm. Qed.
+Print Assumptions vesting_schedule.
+
+Theorem locked_is_original_minus_vested : forall (s : state) (a : addr) (st en orig : Z) (d : denom),
+  acct s a = Some (Vesting st en orig d) -> locked s a d = orig - vested st en orig (now s).
+Proof. exact locked_vesting. Qed.
+Print Assumptions locked_is_original_minus_vested.
+
+(** ... and linear: |vested·(end−start) − original·(t−start)| ≤ (end−start)·(1/2 + (1 + original)/(2·10^18)
+    + original/10^36), i.e. the exact linear share up to half a unit for any realistic amount. *)
+Theorem vesting_is_linear : forall (st en orig t : Z), 0 <= orig -> st < t -> t < en ->
+  2 * 1000000000000000000 * 1000000000000000000 * Z.abs (vested st en orig t * (en - st) - orig * (t - st))
+    <= (en - st) * (2 * orig + orig * 1000000000000000000 + 1000000000000000000
+                    + 1000000000000000000 * 1000000000000000000).
+Proof. exact vesting_linear_thm. Qed.
+Print Assumptions vesting_is_linear.
+
+(** Clause 5.  A reported sale either fails and changes nothing at all (whatever the point of
+    failure: unknown chain, wrong contract, no fee granter, no funder, no funder rich enough,
+    client already known, funder's coins locked, duplicate grant, hostile amount), or succeeds, and
+    then the sale contract of that chain is the reporting contract, a fee granter and a funder with
+    enough spendable balance were configured, the client had neither account nor licence, and exactly
+    one licence (amount × 10^6 of the bond denom, 24 months) and one fee grant were added, paid by
+    that funder into the module account. *)
+Theorem sale_all_or_nothing : forall (s : state) (chain contract : Z) (client : key) (amount : Z),
+  let r := step s (Sale chain contract client amount) in
+  (snd r <> Ok -> fst r = s) /\
+  (acct s escrow = Some Module -> snd r = Ok ->
+     contracts s chain = Some contract /\
+     0 < amount /\
+     exists g fs f, feegranter s = Some g /\ funders s = Some fs /\ In f fs /\
+       amount * Gen.C18.sale_multiplier <= bal s f bond - locked s f bond /\
+       acct s (fst client) = None /\ lic_get (lics s) client = None /\
+       lics (fst r) = (client, {| l_denom := bond; l_amount := amount * Gen.C18.sale_multiplier;
+                                  l_months := Gen.C18.sale_vesting_months |}) :: lics s /\
+       grants s g (fst client) = false /\ grants (fst r) g (fst client) = true /\
+       acct (fst r) = upd1 (acct s) (fst client) (Some Base) /\
+       bal (fst r) = sent_bal s f escrow bond (amount * Gen.C18.sale_multiplier)).
+Proof. exact sale_all_or_nothing_thm. Qed.
+Print Assumptions sale_all_or_nothing.
+
+(** Every refused operation of any kind leaves the state exactly as it was. *)
 Theorem refused_operation_changes_nothing : forall (s : state) (o : op),
   snd (step s o) <> Ok -> fst (step s o) = s.
 Proof. exact failed_op_is_noop. Qed.
 Print Assumptions refused_operation_changes_nothing.
+
+(** The model is the model of the source as it is now: constants, the order of the effect-bearing
+    calls in the three keeper functions and in the sale handler, the expressions that fix the
+    vesting schedule and who is activated, the commit discipline of processAttestation, and the
+    fact that x/paloma spends from its module account in one place only.  Any edit of these makes
+    this fail until the model has been looked at again. *)
+Theorem model_is_of_current_source :
+  Gen.C18.sale_multiplier = 1000000 /\ Gen.C18.sale_vesting_months = 24 /\
+  Gen.C18.sale_create_args = "ctx | funder.String() | clientAddr | coin | lightNodeSaleVestingMonths"%string /\
+  Gen.C18.create_calls = ["GetLightNodeClientLicense"; "HasAccount"; "SetAccount"; "SendCoinsFromAccountToModule";
+                          "SetLightNodeClientLicense"]%string /\
+  Gen.C18.activate_calls = ["GetLightNodeClientLicense"; "GetAccount"; "SetAccount"; "SendCoinsFromModuleToAccount";
+                            "Delete"; "SetLightNodeClient"]%string /\
+  Gen.C18.sale_calls = ["LightNodeClientFeegranter"; "LightNodeClientFunders"; "HasBalance";
+                        "CreateLightNodeClientLicense"; "GrantAllowance"]%string /\
+  Gen.C18.handle_sale_calls = ["LightNodeSaleContract"; "CreateSaleLightNodeClientLicense"]%string /\
+  Gen.C18.handle_sale_contract_test = "contract.ContractAddress != claim.SmartContractAddress"%string /\
+  Gen.C18.vesting_end_expr = "beginTime.AddDate(0, int(license.VestingMonths), 0)"%string /\
+  Gen.C18.vesting_start_expr = "beginTime.Unix()"%string /\
+  Gen.C18.vesting_base_args = "amount | endTime.Unix()"%string /\
+  Gen.C18.vesting_amount_def = "sdk.Coins{license.Amount}"%string /\
+  Gen.C18.vesting_begin_def = "sdkCtx.BlockTime()"%string /\
+  Gen.C18.register_who = "msg.Metadata.Creator"%string /\
+  Gen.C18.module_spend_sites = ["CreateLightNodeClientAccount:SendCoinsFromModuleToAccount"]%string /\
+  Gen.C18.attestation_uses_cache_context = true /\ Gen.C18.attestation_commit_only_on_success = true.
+Proof. exact (conj eq_refl (conj eq_refl (conj eq_refl (conj eq_refl (conj eq_refl (conj eq_refl (conj eq_refl
+  (conj eq_refl (conj eq_refl (conj eq_refl (conj eq_refl (conj eq_refl (conj eq_refl (conj eq_refl (conj eq_refl
+  (conj eq_refl eq_refl)))))))))))))))). Qed.
+Print Assumptions model_is_of_current_source.
